@@ -29,8 +29,8 @@ def gen_cases(ctx):
     rng = ctx.rng
     quick = ctx.tier == "quick"
     cases = []
-    rates = [44100, 48000, 22050, 11025, 8000, 96000] if not quick else [44100, 22050, 8000]
-    keys = [45, 57, 69, 81] if not quick else [57, 69]
+    rates = [44100, 48000, 22050, 8000] if not quick else [44100, 22050, 8000]
+    keys = [45, 69, 81] if not quick else [57, 69]
     for emu, (name, fams) in EMUS.items():
         for fam in fams:
             for rate in (rates if not quick else [rng.choice(rates), 44100] if emu not in (0,) else rates):
